@@ -30,10 +30,13 @@ M = [
  ("own: Modules canonical uid keeps directory prefix", "modules.py", '        uid = "%(module_name)s:%(stream)s" % uid_dict', '        uid = uid.split(":")[0] + ":%(stream)s" % uid_dict', ["C12"]),
  ("own: ExtraFiles.add refuses after creating the variant", "extra_files.py", '        if not isinstance(checksums, dict):\n            raise TypeError("Checksums must be a dict.")\n',
   '        self.extra_files.setdefault(variant, {})\n        if not isinstance(checksums, dict):\n            raise TypeError("Checksums must be a dict.")\n', ["C12"]),
- ("own: Rpms.deserialize_1_0 copies only known variants' dicts shallowly with str() keys lower", "rpms.py", '        self.rpms = data["payload"]["rpms"]',
-  '        self.rpms = dict((k, v) for k, v in data["payload"]["rpms"].items() if v)', ["C03"]),
+ ("own: ExtraFiles.serialize writes each file list sorted by name", "extra_files.py", '        data["payload"]["extra_files"] = self.extra_files',
+  '        data["payload"]["extra_files"] = dict((v, dict((a, sorted(l, key=lambda i: i["file"])) for a, l in d.items())) for v, d in self.extra_files.items())', ["C03"]),
+ ("own: Modules.deserialize drops modules without rpms", "modules.py", '        self.modules = data["payload"]["modules"]',
+  '        self.modules = data["payload"]["modules"]\n        for v in self.modules.values():\n            for a in v.values():\n                for u in [u for u in a if not a[u]["rpms"]]:\n                    del a[u]', ["C03"]),
  ("own: Compose.serialize drops respin 0 -> writes None", "composeinfo.py", '        data[self._section]["respin"] = self.respin', '        data[self._section]["respin"] = self.respin or 0 if self.respin != 10 else 1', ["C03"]),
- ("own: epoch dropped when 0 in canonical key", "rpms.py", '        nevra_dict["epoch"] = nevra_dict["epoch"] or 0\n', '        nevra_dict["epoch"] = nevra_dict["epoch"] or "0"\n        nevra_dict["epoch"] = str(nevra_dict["epoch"]).lstrip("0") or "0"\n', ["C12"]),
+ ("own: epoch 0 left out of the canonical key", "rpms.py", '        nevra_dict["epoch"] = nevra_dict["epoch"] or 0\n', '        nevra_dict["epoch"] = nevra_dict["epoch"] or ""\n', ["C12"]),
+ ("own: Rpms header version not reset after load", "rpms.py", '        self.validate()\n\n        self.header.set_current_version()', '        self.validate()', ["C03"]),
  ("own: parse_nvra strips .rpm with rstrip", "common.py", '        nvra = nvra[:-4]', '        nvra = nvra.rstrip(".rpm")', ["C12"]),
 ]
 
